@@ -1059,7 +1059,19 @@ def purity_rules(prop):
         if k == 0:
             yield ob(prop + ".NARROW", "mir_eval/%s" % files[0], "%s:narrow-dtypes" % prop, True, "no narrow dtype in the %d functions reachable from the property's entry points" % len(reach))
 
-    extra = [] if prop == "C16" else [(prop + ".NARROW", 0, narrow_rule)]
+    def slack_rule(ctx):
+        reach = reach_from(ctx, files)
+        mods = sorted({q.split(".")[0] for q in reach})
+        k = 0
+        for o in rule_noslack(prop + ".NOSLACK", tuple(m + ".py" for m in mods))(ctx):
+            fq = o.construct.split(":")[0]
+            if fq in reach:
+                k += 1
+                yield o
+        if k == 0:
+            yield ob(prop + ".NOSLACK", "mir_eval/%s" % files[0], "%s:slack" % prop, True, "no tiny constant is mixed into a compared or dividing value in the %d functions reachable from the property's entry points" % len(reach))
+
+    extra = ([] if prop == "C16" else [(prop + ".NARROW", 0, narrow_rule)]) + [(prop + ".NOSLACK", 0, slack_rule)]
     return [
         (prop + ".NOSTATE", 5, shared_reach("c15", "rule_globalstate", prop + ".NOSTATE", files)),
         (prop + ".ARGSAFE", 5, shared_reach("c15", "rule_nomut", prop + ".ARGSAFE", files)),
@@ -1187,6 +1199,66 @@ def rule_narrowdtype(rule, files, min_sites=1):
                                 why_ok = NARROW_REVIEWED[(mname, sorted(callers)[0], txt)] + " (in a helper only that function calls)"
                         yield ob(rule, "mir_eval/%s.py:%d" % (mname, getattr(v, "lineno", 1)), "%s.%s:dtype=%s@%d" % (mname, fname, txt, per_fn[(fname, txt)]), ok, ("reviewed narrow type: %s" % why_ok) if ok else "an array is given the narrow type %s in %s: counts beyond its range wrap around, times and frequencies lose the digits a tolerance test depends on" % (txt, fname))
         need(n >= min_sites, rule, "no narrow dtype site found (the reviewed ones vanished)")
+
+    return run
+
+
+# ------------------------------------------------------------------ NOSLACK
+SLACK_REVIEWED = {
+    ("segment", "_normalized_mutual_info_score", "max"): "NMI divides by max(sqrt(H_ref * H_est), 1e-10): sklearn's published guard for two single-cluster labellings (MI is 0 there)",
+}
+
+
+def _small_constant(e):
+    """the value of a numeric literal / `10.0 ** -k` / `np.finfo(..).eps` style expression that is a tiny positive
+    number (0 < |c| < 1e-3), else None"""
+    if isinstance(e, ast.UnaryOp) and isinstance(e.op, (ast.USub, ast.UAdd)):
+        return _small_constant(e.operand)
+    if isinstance(e, ast.Constant) and isinstance(e.value, float) and 0 < abs(e.value) < 1e-3:
+        return e.value
+    if isinstance(e, ast.BinOp) and isinstance(e.op, ast.Pow) and isinstance(e.left, ast.Constant) and e.left.value in (10, 10.0, 2, 2.0):
+        r = e.right
+        if isinstance(r, ast.UnaryOp) and isinstance(r.op, ast.USub):
+            return 1e-9  # 10.0 ** -N: a negative power of the base
+    if isinstance(e, ast.Attribute) and e.attr in ("eps", "tiny", "epsilon", "resolution"):
+        return 1e-16
+    return None
+
+
+def rule_noslack(rule, files, min_sites=0):
+    """Tolerances, thresholds and denominators are used as given: no tiny constant is added to (or subtracted from) a
+    value that is then compared or divided by (`tol + 1e-9`, `y + eps`), and no `max(y, eps)` stands in for the
+    documented special case of a zero denominator - slack of that kind accepts what the documented comparison rejects
+    and replaces a documented 0 / NaN by a huge finite number."""
+
+    def run(ctx):
+        n = 0
+        for mname in sorted(ctx.program.modules):
+            mod = ctx.program.modules[mname]
+            if mod.path.split("mir_eval/")[-1] not in files:
+                continue
+            owner = {}
+            for fn in ast.walk(mod.tree):
+                if isinstance(fn, ast.FunctionDef):
+                    for x in ast.walk(fn):
+                        owner[x] = fn.name
+            per_fn = {}
+            for node in ast.walk(mod.tree):
+                kind = None
+                if isinstance(node, ast.BinOp) and isinstance(node.op, (ast.Add, ast.Sub)):
+                    cs = [_small_constant(z) for z in (node.left, node.right)]
+                    if sum(c is not None for c in cs) == 1:
+                        kind = "add"
+                elif isinstance(node, ast.Call) and ast.unparse(node.func) in ("max", "np.maximum", "min", "np.minimum", "np.clip") and any(_small_constant(a) is not None for a in node.args):
+                    kind = "max"
+                if kind is None or node not in owner:
+                    continue
+                fname = owner[node]
+                n += 1
+                per_fn[(fname, kind)] = per_fn.get((fname, kind), 0) + 1
+                rev = SLACK_REVIEWED.get((mname, fname, kind))
+                yield ob(rule, "mir_eval/%s.py:%d" % (mname, node.lineno), "%s.%s:slack-%s@%d" % (mname, fname, kind, per_fn[(fname, kind)]), rev is not None, ("reviewed: %s" % rev) if rev else "`%s` in %s: a tiny constant is mixed into a value that is compared or divided by - inputs exactly at a documented bound change sides, a documented zero-denominator case yields a huge number instead" % (ast.unparse(node)[:80], fname), node=node)
+        need(n >= min_sites, rule, "no slack site found (the reviewed one vanished)")
 
     return run
 
